@@ -40,6 +40,9 @@ CLONE_CALLS = {
     # one call that matches two patterns: the switches are independent, the higher-priority enabled one names it
     "let-unused-after-in-loop": (["for _i in 0..3 {", "    let copy = name.clone();", "    consume(copy);", "}"], 1, "BOTH:clone-in-loop|unnecessary-clone", None),
     "let-used-after": (["let copy = name.clone();", "consume(copy);", "consume(name);"], 0, None, None),
+    # "afterwards" does not end with the innermost block
+    "let-used-after-in-the-enclosing-block": (["if go {", "    let copy = name.clone();", "    consume(copy);", "}", "consume(name);"], 1, None, None),
+    "let-unused-after-in-a-nested-block": (["if go {", "    let copy = name.clone();", "    consume(copy);", "}", "consume(other);"], 1, "unnecessary-clone", "detect_unnecessary_clone"),
     "argument": (["consume(name.clone());", "consume(name);"], 0, None, None),
 }
 BLOCKING_CALLS = {
@@ -201,7 +204,7 @@ def h_blocking(ctx):
 
 # ------------------------------------------------------------------ K3: context walks with symbolic node kinds
 ATTR_TEXTS = ("#[test]", "#[cfg(test)]", "#[inline]", "#[cfg(not(test))]", "#[derive(Debug)]", "#[tokio::test]",
-              "#[cfg_attr(test, derive(Debug))]", "#[doc = \"see the test suite\"]")
+              "#[cfg_attr(test, derive(Debug))]", "#[doc = \"see the test suite\"]", "#[cfg( test )]")
 
 
 def h_context_kinds(ctx, part="test", depth=3):
@@ -238,8 +241,8 @@ def h_context_kinds(ctx, part="test", depth=3):
         if not has_attr[i]:
             return False
         return And(attr_kinds[i] == "attribute_item", attr_texts[i] in texts)
-    want_test = Or(*[Or(And(kinds[i] == "function_item", attr_is(i, ("#[test]", "#[tokio::test]", "#[cfg(test)]"))),
-                        And(kinds[i] == "mod_item", attr_is(i, ("#[cfg(test)]",)))) for i in range(depth)])
+    want_test = Or(*[Or(And(kinds[i] == "function_item", attr_is(i, ("#[test]", "#[tokio::test]", "#[cfg(test)]", "#[cfg( test )]"))),
+                        And(kinds[i] == "mod_item", attr_is(i, ("#[cfg(test)]", "#[cfg( test )]")))) for i in range(depth)])
     for i in range(depth):     # attribute spellings the documentation does not speak about, on the item kinds that matter
         if has_attr[i] and attr_texts[i] in ("#[tokio::test]",):
             pass
